@@ -28,6 +28,9 @@ def lemmas(tier):
     add("and", [("l0", B), ("l1", B)], "V.and_labels(l0, l1)", [], "generate_for_and: merged object, label = conjunction")
     add("enum", [("base", "int"), ("custom", "int")], "V.enum_labels(base, custom)", ["0 <= base < 3", "0 <= custom < 3"], "generate_for_reference(enum): declared value True, custom value True iff supportsCustomValues")
     add("envelope", [("kind", "int"), ("lp", B), ("has_params", B)], "V.envelope_labels(kind, lp, has_params)", ["0 <= kind < 3"], "generate_requests/notifications/responses: label = envelope label and params/result(/error) label, envelope members preserved")
+    for use in range(3):
+      for base in range(3):
+        add("regen_%d_%d" % (use, base), [("custom_a", "int"), ("custom_b", "int"), ("stale", "int")], "V.regen_ok(%d, custom_a, custom_b, %d, stale)" % (base, use), ["0 <= custom_a < 3", "0 <= custom_b < 3", "0 <= stale < 2"], "re-generation into the same directory for a changed metamodel (and with a hand-placed stale vector): the directory holds exactly the vectors of the current metamodel, so every file carries its true label")
     return L
 
 
@@ -252,7 +255,7 @@ def check(tier):
 
     chk = runner.Check("C17", tier)
     ls = lemmas(tier)
-    results, stats = xh.run(ls, PREAMBLE, timeout=300 if tier == "thorough" else 90, label="c17")
+    results, stats = xh.run(ls, PREAMBLE, timeout=300 if tier == "thorough" else 120, label="c17", unblock=True)
     chk.ev.add_counts(xh.summarize(results))
     chk.ev.coverage["solver_seconds"] += stats["cpu_s"]
     chk.ev.coverage["crosshair"] = {k: stats[k] for k in ("shards", "wall_s", "cpu_s", "timeout_per_condition_s")}
